@@ -1896,7 +1896,8 @@ fn handle_volumes(
     podman: &mut PodmanCommand,
 ) -> Result<(), ConversionError> {
     for volume in quadlet_unit_file.lookup_all(section, "Volume") {
-        let parts: Vec<&str> = volume.split(':').collect();
+        // source:dest:options -- everything after the second ':' belongs to the options
+        let parts: Vec<&str> = volume.splitn(3, ':').collect();
 
         let mut source = String::new();
         let dest;
@@ -2145,12 +2146,18 @@ fn resolve_container_mount_params(
     }
     csv_writer.write_record(None::<&[u8]>)?;
 
-    return Ok(String::from_utf8(
+    let mount_str = String::from_utf8(
         csv_writer
             .into_inner()
             .expect("connot convert Mount params back into CSV"),
     )
-    .expect("connot convert Mount params back into CSV"));
+    .expect("connot convert Mount params back into CSV");
+
+    // the csv writer terminates the record with a newline, which is not part of the option value
+    return Ok(mount_str
+        .strip_suffix('\n')
+        .unwrap_or(mount_str.as_str())
+        .to_string());
 }
 
 #[cfg(test)]
